@@ -12,6 +12,10 @@ pub const C_COV: f64 = 16.0;
 pub const C_PEARSON: f64 = 32.0;
 pub const C_WMEAN: f64 = 8.0;
 pub const KAPPA_MAX: f64 = 1e12;
+/// Below this magnitude (2^60 · f64::MIN_POSITIVE) the p-th absolute central moment — the natural
+/// scale of the envelope — cannot be carried in an f64 with relative accuracy: outside the domain
+/// of the envelope clauses for orders >= 3 (DESIGN.md section 4, Domain).
+pub const UNDERFLOW_GUARD: f64 = 2.5e-290;
 
 pub fn c_p(p: usize) -> f64 {
     4.0 * (2.0f64).powi(p as i32)
@@ -150,6 +154,9 @@ pub fn expect_moment(stat: Stat, ex: &ExactStats) -> Expect {
             if p >= ex.m.len() {
                 return Expect::Skip("order beyond oracle");
             }
+            if ex.a[p].to_f64() < UNDERFLOW_GUARD {
+                return Expect::Skip("the exact moment is not representable with relative accuracy (underflow)");
+            }
             Expect::WithinRat { exact: ex.m[p].clone(), tol: c_p(p) * e * ex.a[p].to_f64() * SLACK }
         }
         Stat::Skewness | Stat::Standardized(3) => std_moment(ex, 3, e, 0.0),
@@ -182,6 +189,9 @@ pub fn expect_moment(stat: Stat, ex: &ExactStats) -> Expect {
 fn std_moment(ex: &ExactStats, p: usize, e: f64, minus: f64) -> Expect {
     if p >= ex.m.len() {
         return Expect::Skip("order beyond oracle");
+    }
+    if ex.a[p].to_f64() < UNDERFLOW_GUARD {
+        return Expect::Skip("the exact moment is not representable with relative accuracy (underflow)");
     }
     let sp = ex.sigma.powi(p as i32);
     let exact = ex.m[p].to_f64() / sp - minus;
